@@ -690,7 +690,14 @@ func VH21f_faults() {
 		verif.Quiesce()
 	case 4:
 		fr := frame(body)
-		c1.PeerSend(fr[:len(fr)-2])
+		cut := len(fr) - 2 // inside the body
+		switch verif.Choice("eof-at", 3) {
+		case 1:
+			cut = len(fr) - len(body) // right after the length prefix: not one byte of the body
+		case 2:
+			cut = len(fr) - len(body) - 3 // inside the length prefix
+		}
+		c1.PeerSend(fr[:cut])
 		c1.PeerHangup()
 		verif.Quiesce()
 	}
